@@ -36,6 +36,7 @@ def calculator(setup, fresh=False, NGFmax=4):
             # the caller lists the Wyckoff sets (and their members) in its own order: the constructor takes any sitelist
             sl = [list(reversed(w)) for w in reversed(sl)]
         calc = OnsagerCalc.VacancyMediated(crys, setup["chem"], sl, jn, setup["Nthermo"], NGFmax=NGFmax)
+        calc._vp_pruned = bool(setup.get("keep"))   # harness-side label only (class histogram)
         if fresh:
             return crys, sl, jn, calc
         if len(_calc) > 60:
@@ -159,7 +160,12 @@ def setups(draw, dim=None, nthermo=(1, 2), max_mobile=3, p_catalogue=0.5, names=
         # (a jump network is an input list; nothing says it has to be complete up to a distance)
         cr_ = cs.build(out["recipe"])
         sl_, jn_, _ = nw.network(cr_, out["chem"], k, 0)
-        if len(jn_) >= 3:
+        from ..core import known_ids
+        if len(jn_) >= 3 and "R40" in known_ids("known") and site_vector_basis(cr_, out["chem"]):
+            # known finding R40 (reported under C06): origin-state crystals with a pruned network; the region is left out of the
+            # search by construction (the complete network is used) and counted
+            out["not_pruned"] = "R40"
+        elif len(jn_) >= 3:
             drop = draw(st.integers(0, len(jn_) - 1))
             keep = [i for i in range(len(jn_)) if i != drop]
             if nw.gf_ok(cr_, out["chem"], sl_, [jn_[i] for i in keep]):
@@ -247,7 +253,7 @@ def is_tracerlike(calc, data):
 
 
 def describe(calc, data=None):
-    cl = (["vacancy_species_not_first"] if calc.chem else []) + ["Nthermo%d" % calc.Nthermo, "vacWyckoff%d" % min(len(calc.sitelist), 3), "om0classes%d" % min(len(calc.om0_jn), 4),
+    cl = (["vacancy_species_not_first"] if calc.chem else []) + (["network_with_a_class_left_out"] if getattr(calc, "_vp_pruned", False) else []) + ["Nthermo%d" % calc.Nthermo, "vacWyckoff%d" % min(len(calc.sitelist), 3), "om0classes%d" % min(len(calc.om0_jn), 4),
           "originstates" if has_originstates(calc) else "no_originstates", "Nvstars<=%d" % (10 * (1 + calc.vkinetic.Nvstars // 10))]
     if data is not None:
         if multiwyckoff_nonuniform_solute(calc, data):
@@ -276,4 +282,9 @@ def within_integration_accuracy(setup, residual, r4, tight, loose=np.inf, NGFmax
         return False, None
     calc8 = calculator(setup, NGFmax=NGFmax)[3]
     r8 = residual(calc8)
-    return bool(r8 <= max(tight, SHRINK * r4)), r8
+    if r8 <= max(tight, SHRINK * r4):
+        return True, r8
+    # convergence need not be monotonic (a coarse-mesh residual can be small by cancellation): a third, finer mesh decides; the
+    # residual must come down below the larger of the two coarser ones, an error that the mesh does not touch still fails
+    r12 = residual(calculator(setup, NGFmax=NGFmax + 4)[3])
+    return bool(r12 <= max(tight, SHRINK * max(r4, r8))), max(r8, r12)
